@@ -99,3 +99,14 @@ def cases(tier, seed, ctx=None):
                 path = rng.choice([b"%2F@BASE@/", b"@BASE@/"]) + f
             reqs.append([path, []] + ([newroot] if newroot else []))
         yield ("fsm", [TREE, first, reqs, ver, [7]], "root-history")
+    # a document root that does not exist yet when the handler is created (or never): nothing outside it becomes reachable meanwhile -
+    # not even by the path that leads to the canary from the file system's own root -, and once it exists its files are served
+    for j in range(6 if tier == "quick" else 40):
+        tree0 = [[b"SECRET", 0, b"top-secret"], [b"other/x", 0, b"x"]]
+        late = [[b"late/inside.txt", 0, b"in"], [b"late/sub/deep.txt", 0, b"deep"]]
+        probes = [b"@BASEREL@/SECRET", b"@BASEREL@/", b"@BASEREL@/other/x", b"etc/hostname", b"tmp/", b"inside.txt", b"", b"SECRET", b"../SECRET"]
+        reqs = [[rng.choice(probes), []] for _ in range(rng.range(1, 4))]
+        if j % 3:
+            reqs.append([1, late, []])
+            reqs += [[rng.choice([b"inside.txt", b"sub/deep.txt", b"", b"@BASEREL@/SECRET", b"nosuch"]), []] for _ in range(rng.range(1, 4))]
+        yield ("fsm", [tree0, rng.choice([b"@BASE@/late", b"@BASE@/late/", b"@CWD@/late"]), reqs, ver, [7]], "root-created-later")
